@@ -55,6 +55,10 @@ def main():
                 ev2 = _load_evidence("C12")
                 _merge_evidence("C12", a.tier, ev1, ev2)
                 rc = max(rc1, rc2)
+        elif a.prop in ("C13", "C14", "C15", "C19", "C20"):
+            from . import docs_main
+
+            rc = docs_main.replay(a.prop, a.replay) if a.replay else docs_main.run(a.prop, a.tier)
         elif a.prop in ("C16", "C17", "C18"):
             from . import run_main
 
